@@ -76,6 +76,17 @@ def fallback_loop_last(rng, n_items, ok):
     return it
 
 
+def cancelled_run(rng, after_ms, reacts):
+    """the caller cancels a run whose only step still executes: closing the step makes the output impossible, and the run
+    returns - with an error (never with nothing at all)"""
+    wf = {'steps': {'a': {'kind': 'plugin', 'pstep': 'work', 'fields': {'input': tmap({'id': lit('a')}), 'closure_wait_timeout': lit(100)}}},
+          'outputs': {'success': tmap({'r': ref('steps.a.outputs.success.tok')})}}
+    inp = {'x': 'x', 'n': 1, 'flag': True}
+    return {'wf': wf, 'oc': {'a': okoc()}, 'script': {'a': {'exec': {'hang': True, 'on_cancel': '' if reacts else 'ignore'}}}, 'input': inp, 'schedule': None,
+            'cancel': True, 'nomeaning': True, 'at': 'cancelled while the only step executes (after %d ms)' % after_ms,
+            'extra': {'timeout_ms': 30000, 'runs': [{'input': inp, 'cancel_after_ms': after_ms}]}}
+
+
 def late_waiter(rng, deploy_ms):
     """the last event of the run is a plain stage change into a waiting stage: `work` succeeds at once, `waiter` deploys
     slowly and then waits for work's crashed.error, which can no longer come; only a deadlock check made after THAT
@@ -141,6 +152,8 @@ def extra(ctx):
         for ms in ([150] if ctx.quick else [30, 80, 150, 400]):
             items.append(late_waiter(rng, ms))
         items.append(late_waiter_gated(rng))
+        items.append(cancelled_run(rng, 40, False))
+        items.append(cancelled_run(rng, 40, True))
         items.append(fallback_loop_last(rng, 2, True))
         items.append(fallback_loop_last(rng, 3, False))
         for n in ([40] if ctx.quick else [21, 30, 40, 80]):
